@@ -117,8 +117,10 @@ def mutate_rules(rng, rules, nres):
 
 def invalid_tok(rng, res, nres):
     """a rule IsValidRule rejects: negative threshold, empty Resource, associated with empty RefResource, undefined RelationStrategy"""
-    k = rng.randrange(4)
+    k = rng.randrange(5)
     thr, iv = fb(rng.choice([0.0, 1.0, 2.0])), rng.choice([0, 1000, 3000])
+    if k == 4:
+        return "nil"
     if k == 0:
         return f"{res},{fb(rng.choice([-1.0, -0.5, -1e-300]))},{iv},-"
     if k == 1:
@@ -212,6 +214,8 @@ def gen_case(rng, cid, force_region=None):
                     toks.insert(rng.choice(pos + [len(toks)] * 2) if pos else len(toks), tok)
                 return toks
             aborted = False
+            if rng.random() < 0.04:
+                ops.append("loadres _ %d %s" % (len(rules), " ".join(rule_tok(r) for r in rules)))     # empty resource name: error, no effect
             if rng.random() < 0.45:
                 # flow.LoadRulesOfResource: the (mutated) rules of one resource, sometimes with invalid rules / rules of another
                 # resource mixed in, sometimes an empty list (clear)
@@ -273,7 +277,7 @@ def gen_case(rng, cid, force_region=None):
         else:
             ops.append(f"sum {rng.choice(resources + [nres + 1])}")
     first = [x.split(",") for x in ops[1].split()[2:]]
-    first = [r for r in first if r[0] != "_" and r[3] not in ("_", "?")]
+    first = [r for r in first if len(r) >= 4 and r[0] != "_" and r[3] not in ("_", "?")]
     tags = tuple("throttle" if len(r) == 5 else "%s%s" % (geom(int(r[2]))[0], "/assoc" if r[3] != "-" else "") for r in first)
     return Case(cid, ops, tags=tags + tuple("reload:" + k for k in kinds))
 
@@ -282,6 +286,7 @@ def typed_stats(cases, dist):
     """measure how the resource-type dimension is exercised (typed = carries api.WithResourceType(non-common))"""
     for c in cases:
         rules = [x.split(",") for x in c.ops[1].split()[2:]]
+        rules = [r for r in rules if len(r) >= 4]
         refs = {r[3] for r in rules if r[3] not in ("-", "_", "?")}
         typed, untyped = set(), set()
         for o in c.ops[2:]:
@@ -310,7 +315,7 @@ def gen(ctx, n):
         for t in c.tags:
             dist[t] = dist.get(t, 0) + 1
         rules = [x.split(",") for x in c.ops[1].split()[2:]]
-        rules = [r for r in rules if r[0] != "_" and r[3] not in ("_", "?")]
+        rules = [r for r in rules if len(r) >= 4 and r[0] != "_" and r[3] not in ("_", "?")]
         if any("entry" == o.split()[0] and o.split()[2] == "-" for o in c.ops):
             dist["cases-with-plain-entries-(no-batch-option)"] = dist.get("cases-with-plain-entries-(no-batch-option)", 0) + 1
         if any(o.startswith("loadres ") for o in c.ops):
@@ -392,7 +397,7 @@ def nontrivial(case, impl):
         elif t[0] == "par":
             kinds.append("P" + (r or "").replace("block flow ", "b").replace("pass", "p"))
     if any(st == 3 for st, _ in state.values()):
-        return hash((case.tags, case.ops[1].split()[2:] and tuple(x.split(",", 1)[1] for x in case.ops[1].split()[2:]), "".join(kinds)))
+        return hash((case.tags, case.ops[1].split()[2:] and tuple(x.split(",", 1)[-1] for x in case.ops[1].split()[2:]), "".join(kinds)))
     return None
 
 
